@@ -13,7 +13,7 @@ func init() {
 		ID:    "C17",
 		Level: "exploration",
 		Rule: "grid of datetime strings built from components (five types x offsets -12..+14 incl. :30/:45 x day/year boundaries x 0..9 fractional digits, 'T' and space separators, 'Z'/+hh/+hh:mm zones) x 6 methods x precisions absent/0..7 x {WithTZ, not} x context zones {none, UTC, fixed offsets, named zones}; " +
-			"all pairs of a sub-grid x 6 operators x zones: direct comparison vs the time-arithmetic model, vs the same comparison after explicit casts of both sides to the common type (two executions of the real code), antisymmetry and transitivity on observed outcomes. " +
+			"all pairs of a sub-grid x 6 operators x zones: direct comparison vs the time-arithmetic model, vs the same comparison after explicit casts of both sides to the common type (two executions of the real code), antisymmetry and transitivity on observed outcomes; every half hour around the daylight-saving transitions of two named zones as timestamp and as timestamptz, all pairs. " +
 			"Non-trivial: the string is accepted by some method; distinct by (string(s), method/operator, precision, tz, zone)",
 		Run:    runC17,
 		Replay: replayC17,
@@ -341,6 +341,39 @@ func runC17(c *h.Ctx) {
 				}
 				for _, b := range sub {
 					checkCompare(c, a, b, tz, zone, rel)
+				}
+			}
+		}
+	}
+	// daylight-saving transitions of named context zones: every half hour of
+	// local time around the skipped / repeated hour as timestamp, the same
+	// span as timestamptz instants, and the date, all pairs in both orders
+	idx = 0
+	for _, tr := range []struct{ zone, date string }{
+		{"America/New_York", "2023-11-05"}, {"America/New_York", "2024-03-10"},
+		{"Europe/Berlin", "2023-03-26"}, {"Europe/Berlin", "2023-10-29"},
+	} {
+		var vals []dtStr
+		vals = append(vals, dtStr{tr.date, "date"})
+		for hh := 0; hh <= 4; hh++ {
+			for _, mm := range []string{"00", "30"} {
+				vals = append(vals, dtStr{fmt.Sprintf("%sT%02d:%s:00", tr.date, hh, mm), "timestamp"})
+			}
+		}
+		for hh := 0; hh <= 10; hh++ {
+			for _, mm := range []string{"00", "30"} {
+				vals = append(vals, dtStr{fmt.Sprintf("%sT%02d:%s:00+00", tr.date, hh, mm), "timestamptz"})
+			}
+		}
+		for _, off := range []string{"-04", "-05", "+01", "+02"} {
+			vals = append(vals, dtStr{tr.date + "T01:30:00" + off, "timestamptz"}, dtStr{tr.date + "T02:30:00" + off, "timestamptz"}, dtStr{tr.date + "T03:30:00" + off, "timestamptz"})
+		}
+		rel := map[[2]string]int{}
+		for _, a := range vals {
+			for _, b := range vals {
+				idx++
+				if c.Mine(idx) {
+					checkCompare(c, a, b, true, tr.zone, rel)
 				}
 			}
 		}
